@@ -80,8 +80,9 @@ theorem sites_NewFirmwareVolume : Gen.UefiTotal.sites_NewFirmwareVolume =
      "_[:_.Length]", "make([]byte, _.Length)", "supportedFVs[_.FileSystemGUID]", "_[:_.Length]", "_[_:]"] := rfl
 
 theorem sites_NewFile : Gen.UefiTotal.sites_NewFile =
-    ["_[:_.Header.ExtendedSize]", "_[:_.Header.ExtendedSize]", "make([]byte, _.Header.ExtendedSize)",
-     "_.buf[_.DataOffset:]", "SupportedFiles[_.Header.Type]", "_.buf[_:]"] := rfl
+    ["_[:FileHeaderMinLength]", "_[:_.Header.ExtendedSize]", "_[:_.Header.ExtendedSize]",
+     "make([]byte, _.Header.ExtendedSize)", "_.buf[_.DataOffset:]", "SupportedFiles[_.Header.Type]",
+     "_.buf[_:]"] := rfl
 
 theorem sites_NewSection : Gen.UefiTotal.sites_NewSection =
     ["_[:_.Header.ExtendedSize]", "_[:_.Header.ExtendedSize]", "make([]byte, _.Header.ExtendedSize)",
@@ -245,7 +246,8 @@ theorem guards_NewFirmwareVolume : Gen.UefiTotalGuards.guards_NewFirmwareVolume 
 
 theorem guards_NewFile : Gen.UefiTotalGuards.guards_NewFile =
     ["if _ != nil", "if _.Header.Size == [3]uint8{0xFF, 0xFF, 0xFF}", "if _ != nil",
-     "if _.Header.ExtendedSize == 0xFFFFFFFFFFFFFFFF", "if _.Header.ExtendedSize > uint64(_)", "if ReadOnly",
+     "if IsErased(_[:FileHeaderMinLength], 0xFF)", "if _.Header.ExtendedSize == 0xFFFFFFFFFFFFFFFF",
+     "if _.Header.ExtendedSize > uint64(_)", "if ReadOnly",
      "if _.Header.Type == FVFileTypeRaw && _.Header.GUID == *NVAR", "if _.DataOffset >= uint64(len(_.buf))",
      "if _ != nil", "if !SupportedFiles[_.Header.Type]", "for _ < _.Header.ExtendedSize", "if _ != nil",
      "if _.Header.ExtendedSize == 0"] := rfl
